@@ -242,9 +242,11 @@ def gen_random_big(rnd, ops, n_hist, length, near_end=False, depth=20, big_batch
     HALF = BIG >> 1
     probes = sorted({0, 1, 255, 256, 257, HALF - 1, HALF, BIG - 1} if depth != 20 else set(PROBES))
     scen = []
-    for _ in range(n_hist):
+    for hno in range(n_hist):
         scen.append({"c": "reset", "d": depth, "probe": probes})
         low = rnd.random() < 0.5          # half of the histories stay below 300 so that the empty list is observable
+        # (a batch of thousands of leaves is exercised under C01 - history class "big-batch": here it would make every later
+        #  observation of the history read and fold thousands of watched leaves)
         for _ in range(length):
             c = rnd.choice(ops)
             v = lambda: rnd.choice([0, 1, 2, 3, 7, 15])
